@@ -1,0 +1,37 @@
+//go:build verif
+
+package embedded
+
+import (
+	"sort"
+
+	"github.com/zenon-network/go-zenon/common/types"
+	"github.com/zenon-network/go-zenon/vm/abi"
+)
+
+// Verification-only export (build tag verif): read-only enumeration of the embedded method tables of the
+// latest spork regime (a superset of the earlier ones), so that an external harness can push call data
+// through every ValidateSendBlock.
+
+type MethodVerif struct {
+	Contract types.Address
+	Name     string
+	Method   Method
+	ABI      abi.ABIContract
+}
+
+func MethodsVerif() []MethodVerif {
+	var out []MethodVerif
+	for addr, impl := range htlcEmbedded {
+		for name, m := range impl.m {
+			out = append(out, MethodVerif{Contract: addr, Name: name, Method: m, ABI: impl.abi})
+		}
+	}
+	sort.Slice(out, func(i, j int) bool {
+		if out[i].Contract != out[j].Contract {
+			return out[i].Contract.String() < out[j].Contract.String()
+		}
+		return out[i].Name < out[j].Name
+	})
+	return out
+}
